@@ -4,6 +4,7 @@
 # checks against it (VERIF_REPO) WITHOUT rewriting evidence of the real tree, and removes the worktree.
 set -u
 PATCH="$1"; shift
+[[ "$PATCH" != -R:* ]] && PATCH="$(realpath "$PATCH")"
 WT=$(mktemp -d /tmp/verif_wt_XXXXXX)
 git -C /repo worktree add -q --detach "$WT" HEAD || exit 3
 if [[ "$PATCH" == -R:* ]]; then
